@@ -152,11 +152,14 @@ func c16Smart(c *ctx, fn string, box [4]int, in [][][][2]int, o int) {
 		return
 	}
 	e["out"] = q
+	e["pstable"] = c16Prev.check(out)
 	if len(q) > 0 && !eqMP(q, in) {
 		e["nt"] = 1
 	}
 	c.emit(e)
 }
+
+var c16Prev prevTracker
 
 func init() {
 	register("smartclip", func(c *ctx) {
